@@ -208,31 +208,63 @@ def main_check(check_id, tier, seed, jobs=None, replay=None, keep=False):
     budget = mod.BUDGET_S[tier]
     tmpdir = os.path.join(ROOT, ".work")
     os.makedirs(tmpdir, exist_ok=True)
-    procs = []
     env = worker_env()
-    for i in range(jobs):
-        out = os.path.join(tmpdir, f"{check_id}-{tier}-{os.getpid()}-{i}.json")
-        cmd = [PY, "-m", "vfw.runner", "--worker", check_id, "--tier", tier, "--shard", f"{i}/{jobs}",
-               "--seed", str(seed), "--out", out, "--budget", str(budget)]
-        p = subprocess.Popen(cmd, cwd=ROOT, env=env, stdout=subprocess.PIPE, stderr=subprocess.STDOUT, text=True)
-        procs.append((p, out))
+    # worker processes are recycled: the library keeps every class it ever compiled for alive (lru caches keyed by
+    # builder), so one process is given at most CASES_PER_PROCESS cases; `jobs` of them run at a time
+    per_proc = getattr(mod, "CASES_PER_PROCESS", {}).get(tier, 4000)
+    nshards = max(jobs, -(-total // per_proc))
+    rounds = -(-nshards // jobs)
+    shard_budget = max(30, budget / rounds)
     results = []
     inconclusive = []
     watchdog = budget * 2 + 120
-    for p, out in procs:
+    pending = list(range(nshards))
+    running = []
+
+    def launch(i):
+        out = os.path.join(tmpdir, f"{check_id}-{tier}-{os.getpid()}-{i}.json")
+        log = open(out + ".log", "w")
+        cmd = [PY, "-m", "vfw.runner", "--worker", check_id, "--tier", tier, "--shard", f"{i}/{nshards}",
+               "--seed", str(seed), "--out", out, "--budget", str(shard_budget)]
+        p = subprocess.Popen(cmd, cwd=ROOT, env=env, stdout=log, stderr=subprocess.STDOUT, text=True)
+        return (p, out, log)
+
+    def collect(p, out, log):
+        log.close()
         try:
-            stdout, _ = p.communicate(timeout=max(5, watchdog - (time.time() - t0)))
-        except subprocess.TimeoutExpired:
-            p.kill()
-            stdout, _ = p.communicate()
-            inconclusive.append("worker watchdog fired")
-            continue
+            stdout = open(out + ".log").read()
+        except Exception:
+            stdout = ""
         if p.returncode != 0 or not os.path.exists(out):
             inconclusive.append(f"worker failed rc={p.returncode}: {stdout[-800:]}")
-            continue
-        results.append(json.load(open(out)))
-        if not keep:
-            os.unlink(out)
+        else:
+            results.append(json.load(open(out)))
+            if not keep:
+                os.unlink(out)
+        try:
+            os.unlink(out + ".log")
+        except OSError:
+            pass
+    while pending or running:
+        while pending and len(running) < jobs:
+            running.append(launch(pending.pop(0)))
+        still = []
+        for p, out, log in running:
+            if p.poll() is None:
+                still.append((p, out, log))
+            else:
+                collect(p, out, log)
+        running = still
+        if time.time() - t0 > watchdog:
+            for p, out, log in running:
+                p.kill()
+                p.wait()
+                log.close()
+            if running or pending:
+                inconclusive.append(f"worker watchdog fired ({len(running)} running, {len(pending)} not started)")
+            break
+        if running:
+            time.sleep(0.05)
     return finish(mod, check_id, tier, seed, results, inconclusive, time.time() - t0)
 
 
